@@ -38,3 +38,21 @@ package parse
 //@ func Regex
 //@   props C12
 //@   ensures !StringOK(remaining) ==> err != nil && result == nil
+
+// ---- C19: a line of the flattened doc comment is a setting iff its trimmed text starts with
+// ---- "goverter:"; the setting text is what follows the prefix; lines are appended in scan order ----
+//@ func SettingLines
+//@   props C19 C12
+//@   pure
+//@   at call append#1 assert strings.HasPrefix(strings.TrimSpace(scanner.Text()), "goverter:")
+//@           && arg1 == strings.TrimPrefix(strings.TrimSpace(scanner.Text()), "goverter:")
+
+//@ func CommentToString
+//@   props C19
+//@   pure
+
+// ---- C15: @cwd/ paths are resolved against the working directory, everything else is kept ----
+//@ func File
+//@   props C15
+//@   ensures err == nil && !strings.HasPrefix(StringValue(rest), "@cwd/") ==> result == StringValue(rest)
+//@   ensures !StringOK(rest) ==> err != nil
